@@ -94,14 +94,17 @@ CHECKS = {
 import os, re, json, subprocess, hashlib
 from concurrent.futures import ThreadPoolExecutor
 K_CONFIGS = [('g++', 'c++17', ['-DFIXEDMATH_ENABLE_SQRT_ABACUS_ALGO']), ('g++', 'c++20', []), ('g++', 'c++2b', []),
-             ('clang++', 'c++17', ['-DFIXEDMATH_ENABLE_SQRT_ABACUS_ALGO']), ('clang++', 'c++20', []), ('clang++', 'c++2b', [])]
+             ('clang++', 'c++17', ['-DFIXEDMATH_ENABLE_SQRT_ABACUS_ALGO']), ('clang++', 'c++20', []), ('clang++', 'c++2b', []),
+             # plain c++17: sqrt_constexpr_available is false, nothing is promised to be a constant expression there, so a
+             # rejection is not a finding - but a call that IS accepted must still produce the right value (lenient mode)
+             ('g++', 'c++17', [], 'lenient'), ('clang++', 'c++17', [], 'lenient')]
 def _lit(v):
     v = int(v)
     return '(-9223372036854775807LL-1)' if v == -2**63 else '%dLL' % v
 def ce_compile(env, kcfg, cases, tag):
     """cases: list of (name, a, b, c, expected). Returns list of (index, kind, message)."""
-    cc, std, defs = kcfg
-    src = os.path.join(env['work'], 'ce_%s_%s_%s_%d.cc' % (cc.replace('+', 'p'), std.replace('+', 'p'), tag, abs(hash(str(cases[:3]))) % 100000))
+    cc, std, defs = kcfg[0], kcfg[1], kcfg[2]
+    src = os.path.join(env['work'], 'ce_%s_%s_%s%s_%s_%d.cc' % (cc.replace('+', 'p'), std.replace('+', 'p'), 'ab' if defs else '', 'plain' if len(kcfg) > 3 else '', tag, abs(hash(str(cases[:3]))) % 100000))
     with open(src, 'w') as f:
         f.write('#include "ce_entries.h"\n')
         for i, (n, a, b, c, e) in enumerate(cases):
@@ -148,10 +151,11 @@ def ce_engine(env, gen='c08', clause='C08.diff', cid='C08.ce', n=None):
         return None
     fails = {}; per_cfg = {}
     def one(k):
-        kname = '%s-%s%s' % (k[0], k[1], '-abacus' if k[2] else '')
+        kname = '%s-%s%s%s' % (k[0], k[1], '-abacus' if k[2] else '', '-plain' if len(k) > 3 else '')
         out, raw = ce_compile(env, k, cases, 'all')
+        if out is not None and len(k) > 3: out = [o for o in out if o[1] != 'rejected']
         return kname, out, raw
-    with ThreadPoolExecutor(6) as ex: rs = list(ex.map(one, K_CONFIGS))
+    with ThreadPoolExecutor(8) as ex: rs = list(ex.map(one, K_CONFIGS))
     excluded = 0
     for kname, out, raw in rs:
         if out is None: res['errors'].append('consteval TU failed to compile on %s:\n%s' % (kname, raw)); continue
@@ -355,9 +359,10 @@ def replay_extra(v, env):
         env = dict(env); env['work'] = tempfile.mkdtemp(prefix='fmv-ce-')
         bad = 0
         for k in K_CONFIGS:
-            kname = '%s-%s%s' % (k[0], k[1], '-abacus' if k[2] else '')
+            kname = '%s-%s%s%s' % (k[0], k[1], '-abacus' if k[2] else '', '-plain' if len(k) > 3 else '')
             if kname not in v.get('kconfigs', [kname]): continue
             out, raw = ce_compile(env, k, [(v['entry'], v['args'][0], v['args'][1], v['args'][2], v['expected'])], 'replay')
+            if out is not None and len(k) > 3: out = [o for o in out if o[1] != 'rejected']
             if out is None or out: bad += 1; print('REPLAY C08.ce %s%s on %s: FAIL\n%s' % (v['entry'], tuple(v['args']), kname, raw[-1500:]))
             else: print('REPLAY C08.ce %s%s on %s: PASS' % (v['entry'], tuple(v['args']), kname))
         import shutil; shutil.rmtree(env['work'], ignore_errors=True)
